@@ -8,8 +8,10 @@ import json
 
 QUBITS = ["q", "r"] + [f"{x}{i}" for i in range(1, 5) for x in "ab"]
 ARR3 = [f"r{i}" for i in range(1, 5)]
+ARR2 = [f"s{i}" for i in range(1, 5)]
 NATS = [f"k{i}" for i in range(1, 5)]
 PARAMS = ([(n, "qubit") for n in QUBITS] + [("qs", "array[qubit, 2]")] + [(n, "array[qubit, 3]") for n in ARR3]
+          + [(n, "array[qubit, 2]") for n in ARR2]
           + [("kk", "int")] + [(n, "nat") for n in NATS])
 PARAM_NAMES = [n for n, _ in PARAMS]
 LINEAR = [n for n, t in PARAMS if "qubit" in t]
@@ -20,6 +22,9 @@ def u(q: qubit, k: int) -> None: ...
 
 @guppy.declare(unitary=True)
 def ua(qs: array[qubit, 2]) -> None: ...
+
+@guppy.declare(unitary=True)
+def g(q: qubit) -> nat: ...
 
 """
 
